@@ -22,7 +22,8 @@ EXTENDS Integers, Sequences, FiniteSets, TLC
 
 CONSTANTS MaxChildren,     \* commands alive at once
           MaxTemps,        \* temp files existing at once
-          QMax             \* bound on the renderer's queue (model bound only)
+          QMax,            \* bound on the renderer's queue (model bound only)
+          MaxPending       \* bound on simultaneously pending exit requests (model bound only)
 
 Tracked == {"alt", "m1000", "m1002", "m1006", "paste"}          \* modes fzf sets for the whole session
 Modes == Tracked \cup {"cursor", "wrap"}                          \* + modes toggled around every write
@@ -63,8 +64,8 @@ CloseWritten(c, q, m, show) ==
     IN first \o FlushOps(q2, show)
 
 (* the terminal state every exit must leave behind: as found; --no-clear in full screen documents that the         *)
-(* alternate screen is kept                                                                                         *)
-RestoredScr(s, c) == s = [InitScr EXCEPT !.alt = c.full /\ ~c.clear]
+(* alternate screen is not left                                                                                     *)
+RestoredScr(s, c) == s = InitScr \/ (c.full /\ ~c.clear /\ s = [InitScr EXCEPT !.alt = TRUE])
 
 (* documented exit statuses (man fzf, EXIT STATUS) *)
 AllowedStatus(h) == CASE h \in {"accept", "print-query"} -> {0, 1}
@@ -101,7 +102,7 @@ Flush == /\ phase = "running" /\ queued # <<>>
          /\ Write(FlushOps(queued, showCursor)) /\ queued' = <<>>
          /\ UNCHANGED <<cfg, phase, tio, mouseOn, showCursor, listener, children, temps, pending, how, dev>>
 
-Paint == /\ phase = "running" /\ Len(queued) < QMax /\ (queued = <<>> \/ queued[Len(queued)] # Draw)
+Paint == /\ phase = "running" /\ Len(queued) < QMax /\ (IF queued = <<>> THEN TRUE ELSE queued[Len(queued)] # Draw)
          /\ queued' = Append(queued, Draw) /\ out' = <<>>
          /\ UNCHANGED <<cfg, phase, tio, scr, mouseOn, showCursor, listener, children, temps, pending, how, dev>>
 
@@ -195,8 +196,9 @@ Design == \/ RInit \/ Flush \/ Paint \/ ToggleCursor \/ BgPause \/ Suspend \/ Co
           \/ \E h \in ExitHows : RequestExit(h) \/ ExitVia(h)
 Next == Design \/ \E h \in ExitHows : ExitLeavingPreview(h)
 
-(* the environment eventually ends a command that owns the terminal, and continues a stopped fzf *)
-Fairness == /\ WF_vars(\E h \in ExitHows : ExitVia(h)) /\ WF_vars(ChildExit("execute")) /\ WF_vars(ChildExit("silent"))
+(* the environment eventually ends a command that owns the terminal, and continues a stopped fzf; the render loop  *)
+(* gets its turn between two commands (strong fairness: a command started in between only postpones the exit)       *)
+Fairness == /\ SF_vars(\E h \in ExitHows : ExitVia(h)) /\ WF_vars(ChildExit("execute")) /\ WF_vars(ChildExit("silent"))
             /\ WF_vars(Continue) /\ WF_vars(RInit)
 Spec == Init /\ [][Design]_vars /\ Fairness
 SpecDev == Init /\ [][Next]_vars
@@ -221,4 +223,5 @@ TempsOwned == \A t \in temps : phase = "exited" \/ t.owner \in Kinds
 (* no hang: once asked to exit, fzf exits (as soon as the command that owns the terminal has ended) *)
 ExitCompletes == (pending # {}) ~> (phase = "exited")
 QBound == Len(queued) <= QMax
+PendingBound == Cardinality(pending) <= MaxPending       \* model bound (CONSTRAINT) on simultaneous exit requests
 =============================================================================
